@@ -4,8 +4,12 @@
    State:   digest   = abstract identity of json.dumps(result.to_json(), sort_keys=True) (with binary)
             input    = abstract identity of the caller's buffer content
             hist     = observer calls made so far (history variable, bounded by MaxHist)
+            vals     = for every observer kind, the abstract identity of WHAT the call returned (the text, the
+                       unit texts, the bytes read from every picture's stream, the tables, ...)
    Actions: Obs(k)         one observer call of kind k on the result (full text, unit iteration,
                            deep unit access, image iteration, image bytes, tables, metadata, to_json)
+            Other          an extraction of ANOTHER input (or of the same bytes under another path) in the same
+                           process while the result is held: it changes nothing of the held result
             Reextract(m,s) the same bytes extracted again: m = "same" process or a "fresh" process
                            started with hash seed s
    Properties (action formulas): no action changes digest or input.
@@ -13,7 +17,10 @@
    Named deviations reproduce what the pinned tree did before the "fix:" commits; they exist so
    that TLC exhibits the counterexample (sensitivity run) and to explain a regression precisely:
      "Odt!UnitIteratorWritesImageUnitName"  Obs("Units") on an ODT result with images changes digest
-     "StylesFromSet"                        digest of DOCX/ODT results depends on the hash seed     *)
+     "StylesFromSet"                        digest of DOCX/ODT results depends on the hash seed
+     "Image!StreamNotRewound"               the second Obs("ImageBytes") reads nothing from the picture streams
+     "SharedDefaultObject"                  results of two extractions share a mutable default object (metadata of
+                                            a package without a metadata part): Other changes the held result     *)
 EXTENDS Naturals, Sequences, FiniteSets, TLC
 
 CONSTANTS Types,          \* result kinds, e.g. {"odt", "docx", "pdf"}
@@ -23,17 +30,20 @@ CONSTANTS Types,          \* result kinds, e.g. {"odt", "docx", "pdf"}
 
 Observers == {"FullText", "Units", "UnitDeep", "Images", "ImageBytes", "Tables", "Metadata", "ToJson"}
 
-VARIABLES type, digest, input, hist
-vars == <<type, digest, input, hist>>
+VARIABLES type, digest, input, hist, vals, seen
+vars == <<type, digest, input, hist, vals, seen>>
 
 \* digest is abstract: 0 = the digest of the first extraction; any other number = "something else"
-Init == type \in Types /\ digest = 0 /\ input = 0 /\ hist = <<>>
+Init == type \in Types /\ digest = 0 /\ input = 0 /\ hist = <<>> /\ vals = [k \in Observers |-> 0] /\ seen = {}
 
 Obs(k) ==
     /\ Len(hist) < MaxHist
     /\ hist' = Append(hist, k)
     /\ digest' = IF "Odt!UnitIteratorWritesImageUnitName" \in Deviations /\ type = "odt" /\ k \in {"Units", "UnitDeep"}
                  THEN 1 ELSE digest
+    /\ vals' = IF "Image!StreamNotRewound" \in Deviations /\ k = "ImageBytes" /\ k \in seen
+               THEN [vals EXCEPT !["ImageBytes"] = 1] ELSE vals
+    /\ seen' = seen \cup {k}
     /\ UNCHANGED <<type, input>>
 
 Reextract(m, s) ==
@@ -41,12 +51,19 @@ Reextract(m, s) ==
     /\ hist' = Append(hist, <<m, s>>)
     /\ digest' = IF "StylesFromSet" \in Deviations /\ type \in {"docx", "odt"} /\ m = "fresh" /\ s # 0
                  THEN 2 ELSE digest
-    /\ UNCHANGED <<type, input>>
+    /\ UNCHANGED <<type, input, vals, seen>>
 
-Next == (\E k \in Observers : Obs(k)) \/ (\E s \in Seeds : Reextract("fresh", s)) \/ Reextract("same", 0)
+Other ==
+    /\ Len(hist) < MaxHist
+    /\ hist' = Append(hist, <<"other", 0>>)
+    /\ digest' = IF "SharedDefaultObject" \in Deviations THEN 3 ELSE digest
+    /\ UNCHANGED <<type, input, vals, seen>>
+
+Next == (\E k \in Observers : Obs(k)) \/ (\E s \in Seeds : Reextract("fresh", s)) \/ Reextract("same", 0) \/ Other
 Spec == Init /\ [][Next]_vars
 
 Prop_DigestStable == [][digest' = digest]_vars        \* idempotent observers, deterministic re-extraction
 Prop_InputUntouched == [][input' = input]_vars
+Prop_ValuesStable == [][vals' = vals]_vars            \* the same observation returns the same thing every time
 Inv_Digest == digest = 0
 =============================================================================
